@@ -328,16 +328,6 @@ func (g *schemaGenerator) generateDeclaredType(t *schemas.Type, scope nameScope)
 		}
 
 		if t.IsSubSchemaTypeElem() || len(validators) > 0 {
-			// The unmarshaler of a struct with additional properties uses these
-			// packages whether or not the map field has a default.
-			for _, f := range tt.Fields {
-				if f.Name == additionalProperties {
-					g.output.file.Package.AddImport("reflect", "")
-					g.output.file.Package.AddImport("strings", "")
-					g.output.file.Package.AddImport("github.com/go-viper/mapstructure/v2", "")
-				}
-			}
-
 			g.generateUnmarshaler(decl, validators)
 		}
 
@@ -449,6 +439,18 @@ func (g *schemaGenerator) structFieldValidators(
 func (g *schemaGenerator) generateUnmarshaler(decl codegen.TypeDecl, validators []validator) {
 	if g.config.OnlyModels {
 		return
+	}
+
+	// The unmarshaler of a struct with additional properties uses these
+	// packages whether or not the map field has a default.
+	if structType, ok := decl.Type.(*codegen.StructType); ok {
+		for _, f := range structType.Fields {
+			if f.Name == additionalProperties {
+				g.output.file.Package.AddImport("reflect", "")
+				g.output.file.Package.AddImport("strings", "")
+				g.output.file.Package.AddImport("github.com/go-viper/mapstructure/v2", "")
+			}
+		}
 	}
 
 	for _, v := range validators {
